@@ -142,7 +142,9 @@ def _dtname(schema, conv):
 
 
 def _vi(x):
-    return x.value
+    # a default is stored as a ValueInfo; anything else in its place is reported as part of the digest
+    # (so that it shows as a difference) instead of crashing the projection
+    return x.value if hasattr(x, "value") and hasattr(x, "position") else "~not-a-ValueInfo:%r~" % (x,)
 
 
 def digest_type(schema, t, with_handler=False):
